@@ -404,8 +404,8 @@ Definition build_field (t : fty) : M (ptype * tname) :=
       set_j5ext "key" [] ;;;
       (if lrules
        then match f with
-            | KNilType | KInformal => fail "unknown key format"
-            | _ => ensure IJ5List ;;; setext st_key_list
+            | KNilType => fail "unknown key format"
+            | _ => ensure IJ5List ;;; setext st_key_list      (* informal: unique_string, since fix dc2b724 *)
             end
        else ret tt) ;;;
       match f with
@@ -566,11 +566,5 @@ Definition in_language (p : prop) : bool :=
 Definition uses_float_rules (p : prop) : bool :=
   match p_shape p with
   | Plain (TFloat _ true _) | Array (Some (TFloat _ true _)) _ _ | Map (Some (TFloat _ true _)) _ => true
-  | _ => false
-  end.
-(* key list rules with the informal format: "unknown key format" *)
-Definition uses_informal_key_listrules (p : prop) : bool :=
-  match p_shape p with
-  | Plain (TKey _ _ KInformal true) | Array (Some (TKey _ _ KInformal true)) _ _ | Map (Some (TKey _ _ KInformal true)) _ => true
   | _ => false
   end.
